@@ -38,7 +38,9 @@ var errVbWrite = errors.New("verif: scripted write error")
 // it. What the copy returns on an error is read from the source the package was compiled from (the file that
 // defines sendLoop), so that a repair of - or a regression in - the real closure is followed by the copy; the
 // real closure itself runs in TestVerifEgressRT.
-var vbClosureRe = regexp.MustCompile(`return len\(bufs\)\s*(-\s*1)?\s*,\s*err\b`)
+// the whole closure must be one of the two forms the copy below reproduces; anything else (e.g. a conditional
+// rebuild of bufs) fails the run, and the real closure is exercised by TestVerifEgressRT
+var vbClosureRe = regexp.MustCompile(`func\(pkts \[\]\[\]byte\) \(int, error\) \{\s*bufs = append\(bufs\[:0\], pkts\.\.\.\)[^\n]*\n\s*_, err := bufs\.WriteTo\(conn\)[^\n]*\n\s*return len\(bufs\)\s*(-\s*1)?\s*,\s*err\b[^\n]*\n\s*\}`)
 
 func vbClosureSkipsFailed() (bool, error) {
 	f := runtime.FuncForPC(reflect.ValueOf((*tcpSender).sendLoop).Pointer())
@@ -52,7 +54,7 @@ func vbClosureSkipsFailed() (bool, error) {
 	}
 	m := vbClosureRe.FindAllSubmatch(src, -1)
 	if len(m) != 1 {
-		return false, fmt.Errorf("verif: %d write-closure return statements recognised in %s; update the harness copy", len(m), file)
+		return false, fmt.Errorf("verif: %d write closures of the known shape recognised in %s: sendLoop's closure changed, update the harness copy (balancer_verif_test.go: callback)", len(m), file)
 	}
 	return len(m[0][1]) > 0, nil
 }
@@ -121,13 +123,14 @@ type vbOp struct {
 }
 
 type vbHist struct {
-	ops    []string // texts
-	terms  []string
-	obs    []string
-	fails  map[string]bool
-	kinds  map[string]bool
-	frames []string // CFrames terms collected from batches
-	stuck  bool
+	ops         []string // texts
+	terms       []string
+	obs         []string
+	fails       map[string]bool
+	kinds       map[string]bool
+	frames      []string // CFrames terms collected from batches
+	reconFrames int
+	stuck       bool
 }
 
 func vbB(a bool) string {
@@ -254,8 +257,19 @@ func (w *vbWorld) callback(i int) func(pkts [][]byte) (int, error) {
 		conn := v.conns[len(v.conns)-1]
 		conn.failAt, conn.partial, conn.calls = d.failAt, d.partial, 0
 		v.bufs = append(v.bufs[:0], pkts...)
+		fresh := len(v.conns) > 1 && len(conn.got) == 0
 		_, err := v.bufs.WriteTo(conn)
 		v.lastK = len(v.bufs)
+		if fresh && err == nil && len(pkts) <= 3 && w.hist.reconFrames < 1 {
+			// framing clause on what a new connection receives first (after a write error on the previous one)
+			w.hist.reconFrames++
+			var bodies []string
+			for _, p := range pkts {
+				bodies = append(bodies, vu.Bytes(p[pktHeadLen:]))
+			}
+			w.hist.frames = append(w.hist.frames, fmt.Sprintf("CFrames [%s] %s", strings.Join(bodies, ";"), vu.Bytes(conn.got)))
+			w.hist.kinds["reconnect_frames"] = true
+		}
 		if err != nil {
 			if len(v.bufs) > 0 && vbSkipFailed {
 				v.failed = append(v.failed, v.batch[len(v.batch)-len(v.bufs)])
@@ -455,15 +469,48 @@ func (w *vbWorld) finish() {
 	seen := map[int64]bool{}
 	for i := 0; i < 2; i++ {
 		last := int64(0)
-		for _, c := range w.snd[i].conns {
+		for ci, c := range w.snd[i].conns {
 			s := c.got
-			for len(s) >= pktHeadLen {
-				n := int(binary.LittleEndian.Uint32(s))
-				if len(s) < pktHeadLen+n {
-					break // truncated last frame of a connection that died
+			died := ci < len(w.snd[i].conns)-1 // a write error ended this connection; only then may its last frame be cut
+			for off := 0; len(s) > 0; {
+				bad := ""
+				n := 0
+				if len(s) < pktHeadLen {
+					if died {
+						break
+					}
+					bad = "cut"
+				} else if n = int(binary.LittleEndian.Uint32(s)); n < 8 || n > pktBodyMax {
+					bad = "length"
+				} else if len(s) < pktHeadLen+n {
+					if died {
+						// the rest must still be the beginning of an accepted packet
+						if len(s) >= pktHeadLen+8 {
+							id := int64(binary.LittleEndian.Uint64(s[pktHeadLen:]))
+							l, known := w.lenOf[id]
+							if !known || int(l) != pktHeadLen+n || string(s[pktHeadLen:]) != string(vbBody(id, l)[:len(s)-pktHeadLen]) {
+								bad = "body"
+							}
+						}
+						if bad == "" {
+							break
+						}
+					} else {
+						bad = "cut"
+					}
+				}
+				if bad != "" {
+					// "written upstream byte-for-byte with its length frame": a length-prefix reader loses the stream here
+					if off == 0 && ci > 0 {
+						w.fail("egress_reconnect_stream_starts_at_frame_boundary")
+					} else {
+						w.fail("egress_bytes_corrupted")
+					}
+					break
 				}
 				fr := s[:pktHeadLen+n]
 				s = s[pktHeadLen+n:]
+				off += pktHeadLen + n
 				ids := w.slotIDs([][]byte{fr})
 				id := ids[0]
 				if !w.accepted[id] {
@@ -618,14 +665,14 @@ func TestVerifBalancer(t *testing.T) {
 			n, _ = strconv.Atoi(args[i+1])
 		}
 	}
+	skip, err := vbClosureSkipsFailed()
+	if err != nil {
+		t.Fatal(err) // before any output file exists: bin/check reports the harness as failed
+	}
+	vbSkipFailed = skip
 	r := vu.NewRng(seed)
 	o := vu.NewOut(outDir)
 	defer o.Close()
-	skip, err := vbClosureSkipsFailed()
-	if err != nil {
-		t.Fatal(err)
-	}
-	vbSkipFailed = skip
 	o.Hist[fmt.Sprintf("closure_skips_failed_%v", skip)]++
 
 	// witness of finding F-C31: the sender waits for a batch, one packet arrives, the timer fires without
